@@ -2,6 +2,7 @@ pub mod c01;
 pub mod c04;
 pub mod c12;
 pub mod c14;
+pub mod c15;
 pub mod c20;
 pub mod tamper;
 
@@ -24,6 +25,7 @@ pub fn run(a: &Args) -> Result<ShardOut, String> {
         "C20" => Ok(c20::run(a)),
         "C12" => Ok(c12::run(a)),
         "C14" => Ok(c14::run(a)),
+        "C15" => Ok(c15::run(a)),
         "C03" => Ok(tamper::run(a, false)),
         "C04" => Ok(c04::run(a)),
         p => Err(format!("unknown property {p}")),
